@@ -657,6 +657,26 @@ func enumC01m(seed int64, thorough bool) []func() []wcaseT {
 			})
 		}
 	}
+	// one block beyond 2^24 bytes: 24-bit offsets / addresses / distances inside the transforms (EXE addresses, LZ distances ...)
+	bigT := []string{"EXE", "LZ", "LZX", "ROLZ"}
+	if thorough {
+		bigT = append(bigT, "LZP", "RLT", "ZRLT", "TEXT", "UTF", "PACK", "MM", "DNA", "ROLZX")
+	}
+	for bi, tf := range bigT {
+		bi, tf := bi, tf
+		gens = append(gens, func() []wcaseT {
+			g := 9000 + bi
+			shape := "text"
+			if tf == "EXE" {
+				shape = "x86"
+			}
+			run := &writerRun{Run: g, Mode: "c01m", Seed: seed*61 + int64(g), After: "close", Shape: shape}
+			run.Size = 17<<20 + 4616 + 16*bi
+			run.W = kz.Cfg{Transform: tf, Entropy: "NONE", Block: 32 << 20, Jobs: 1, Ck: 32, Hint: -1}
+			run.RJobs = 1
+			return []wcaseT{{run, gen.Make(shape, run.Seed, run.Size)}}
+		})
+	}
 	// ... and the matrix transform x data shape with entropy NONE on several blocks (block boundaries inside the data: state carried
 	// from block to block, shapes whose blocks start / end in a particular way such as crlfsplit)
 	for ti, tf := range transformNames {
